@@ -163,6 +163,12 @@ func (c *Ctx) Shrink(f Found, judge Judge, budget time.Duration) (Found, []strin
 		cand.Ops[gi].Gen.Patterns = nil
 		try(cand, "patterns → canonical")
 	}
+	// 2b. goroutine schedule → native
+	if gm := cur.Ops[gi].Gen.Plan.Goroutines; gm != "" && gm != "native" {
+		cand := cloneHistory(cur)
+		cand.Ops[gi].Gen.Plan.Goroutines = ""
+		try(cand, "goroutine mode → native (simulated goroutine order is irrelevant)")
+	}
 	// 3. order plan
 	g := cur.Ops[gi].Gen
 	if g.Plan.Order.Mode != "" && g.Plan.Order.Mode != "identity" {
